@@ -186,6 +186,107 @@ def c17_1b(ck, prog):
                                                                        if k != 'complete_pending_call_and_unlock'))
 
 
+def c17_1c(ck, prog):
+    r = ck.rule('C17.1c', 'a synthesized error (timeout, disconnect) is queued for a call that stays in the reply '
+                'table: dispatch can only complete the call if it still finds it there under the error\'s reply '
+                'serial', 'TS',
+                breaks='the error is dispatched to filters instead of completing the call: an asynchronous call '
+                       'never completes (no notification) after its connection is lost', floor=2)
+    QUEUE = '_dbus_pending_call_queue_timeout_error_unlocked'
+    REMOVERS = {'_dbus_hash_iter_remove_entry', '_dbus_connection_detach_pending_call_unlocked',
+                '_dbus_connection_detach_pending_call_and_unlock', '_dbus_connection_remove_pending_call'}
+    n = 0
+    for f in lib.prod_funcs(prog, {CONN, PEND}):
+        if not f.calls(QUEUE):
+            continue
+        n += 1
+        rem = [c for b, i, c in f.calls() if c.get('callee') in REMOVERS or (
+            (c.get('callee') or '').startswith('_dbus_hash_table_remove') and c['args']
+            and is_member(c['args'][0], 'pending_replies', 'DBusConnection'))]
+        key = '%s:queued-error-stays-matchable' % f.name
+        if rem:
+            r.violation(key, f.name, f.file, rem[0]['line'],
+                        '%s queues the synthesized error of a call and also removes the call from the reply table '
+                        '(%s): when the error is dispatched no pending call is found for it' % (
+                            f.name, rem[0]['callee']))
+        else:
+            r.ok(key)
+    if n < 2:
+        raise AnalysisBroken('producers of synthesized errors not found')
+
+
+def c17_5(ck, prog):
+    r = ck.rule('C17.5', 'the reply table is keyed by reply serial on both sides: a call is stored and removed '
+                'under its own reply serial, and an incoming message is looked up by the reply serial it carries '
+                '(never by its own serial)', 'TAB',
+                breaks='an unrelated incoming message disarms the timeout of (or completes) a call it does not '
+                       'answer: that call never completes', floor=5)
+    KEYS_OK = {'dbus_message_get_reply_serial', '_dbus_pending_call_get_reply_serial_unlocked'}
+    n = 0
+    for f in lib.prod_funcs(prog, {CONN}):
+        for b, i, c in f.calls():
+            cal = c.get('callee') or ''
+            if not (cal.startswith('_dbus_hash_table_') and cal.endswith('_int')) or len(c['args']) < 2:
+                continue
+            if not is_member(c['args'][0], 'pending_replies', 'DBusConnection'):
+                continue
+            n += 1
+            k = c['args'][1]
+            key = '%s:%s' % (f.name, cal)
+            srcs = []
+            if is_call(k):
+                srcs = [k]
+            elif is_ref(k):
+                srcs = [rhs for b2, i2, ev in f.events() for l, h, rhs in written_lvalues(ev)
+                        if is_ref(l) and l.get('id') == k.get('id') and rhs is not None]
+            if srcs and all(is_call(x) and x.get('callee') in KEYS_OK for x in srcs):
+                r.ok(key, {'site': '%s:%d' % (CONN, c['line']), 'key': estr(srcs[0])[:60]})
+            else:
+                r.violation(key, f.name, CONN, c['line'], 'the reply table is accessed with key %s (%s), which is '
+                            'not a reply serial' % (estr(k), ', '.join(estr(x)[:50] for x in srcs) or 'unknown origin'))
+    if n < 5:
+        raise AnalysisBroken('only %d accesses of connection->pending_replies by key found' % n)
+
+
+def c17_6(ck, prog):
+    r = ck.rule('C17.6', 'a blocking wait never waits again without having seen, since the previous wait, that the '
+                'connection is still connected (a disconnected connection completes the call with an error '
+                'instead)', 'DOM',
+                breaks='dbus_pending_call_block() on a call with no timeout spins forever after the peer closed',
+                floor=1)
+    fn = prog.fn('_dbus_connection_block_pending_call', CONN)
+    CONNECTED = '_dbus_connection_get_is_connected_unlocked'
+    SLEEPS = WAITS | {'_dbus_memory_pause_based_on_timeout'}
+    seen = [0]
+
+    def on_event(user, ev, ctx):
+        st = user
+        if isinstance(st, tuple):
+            k = ctx.result_known(st[1])
+            if k is True:
+                st = 'fresh'
+            elif k is False:
+                st = 'stale'
+        if ev['ev'] == 'call':
+            c = ev['e']
+            if c.get('callee') == CONNECTED:
+                return ('pending', c['id'])
+            if c.get('callee') in SLEEPS:
+                seen[0] += 1
+                if st != 'fresh':
+                    ctx.report('%s is reached again without the connection having been found connected since the '
+                               'previous wait' % c['callee'], c['line'], key=('rewait', c['callee']))
+                return 'stale'
+        return st
+    ex = Explorer(fn, init='fresh', on_event=on_event, calls={CONNECTED}, track='auto', cap=400000).run()
+    if seen[0] < 2:
+        raise AnalysisBroken('block_pending_call: waits not found')
+    if ex.reports:
+        r.from_reports(ex.reports, keyfn=lambda k, rep: 'block_pending_call:%s' % '/'.join(k))
+    else:
+        r.ok('block_pending_call:connected-before-every-rewait')
+
+
 def lock_event(c):
     cal = c.get('callee') or ''
     if cal == '_dbus_connection_lock':
@@ -398,6 +499,9 @@ def run(ck):
     for v, prog in ck.programs(thorough_variants=('B',)):
         c17_1(ck, prog)
         c17_1b(ck, prog)
+        c17_1c(ck, prog)
+        c17_5(ck, prog)
+        c17_6(ck, prog)
         c17_2(ck, prog)
         c17_3(ck, prog)
         c17_4(ck, prog)
